@@ -5,6 +5,7 @@ import (
 	"go/token"
 	"sort"
 	"strings"
+	"sync"
 	"time"
 
 	"golang.org/x/tools/go/ssa"
@@ -96,79 +97,161 @@ func (r *Run) panicText(p targetPanic) string {
 	return "panic"
 }
 
-func (m *Machine) RunLemma(l *Lemma, fn *ssa.Function, deadline time.Time) *LemmaResult {
+var cpuTokens chan struct{}
+
+// RunLemma explores all paths of the harness. Paths are independent re-executions, so they are
+// spread over several workers (each with its own z3 process) while CPU tokens are available.
+func RunLemma(mk func() (*Machine, error), l *Lemma, fn *ssa.Function, deadline time.Time, maxPaths int) *LemmaResult {
 	res := &LemmaResult{Lemma: l, PathsEnded: map[string]int{}, Reached: map[string]int{}, AssertIDs: map[string]int{}, FuncsHit: map[string]bool{}}
 	t0 := time.Now()
-	work := [][]int64{{}}
+	var mu sync.Mutex
+	cond := sync.NewCond(&mu)
+	queue := [][]int64{{}}
+	active := 0
+	workers := 0
+	stop := false
 	seenViol := map[string]int{}
-	for len(work) > 0 {
-		if res.Paths >= m.opts.MaxPaths {
-			res.Inconclusive = append(res.Inconclusive, fmt.Sprintf("path limit %d reached with %d prefixes pending", m.opts.MaxPaths, len(work)))
-			break
+	var wg sync.WaitGroup
+
+	var worker func(holdsToken bool)
+	worker = func(holdsToken bool) {
+		defer wg.Done()
+		if holdsToken {
+			defer func() { <-cpuTokens }()
 		}
-		if time.Now().After(deadline) {
-			res.Inconclusive = append(res.Inconclusive, fmt.Sprintf("time budget reached with %d prefixes pending after %d paths", len(work), res.Paths))
-			break
+		m, err := mk()
+		if err != nil {
+			mu.Lock()
+			res.Inconclusive = append(res.Inconclusive, "cannot start solver: "+err.Error())
+			workers--
+			cond.Broadcast()
+			mu.Unlock()
+			return
 		}
-		prefix := work[len(work)-1]
-		work = work[:len(work)-1]
-		r := m.newRun(prefix)
-		r.exec(fn)
-		res.Paths++
-		res.PathsEnded[r.ended]++
-		res.Obligations += r.obligations
-		res.Discharged += r.discharged
-		if len(r.trail) > res.MaxTrail {
-			res.MaxTrail = len(r.trail)
-		}
-		for k := range r.reached {
-			res.Reached[k]++
-		}
-		for k, n := range r.assertIDs {
-			res.AssertIDs[k] += n
-		}
-		for k := range r.funcsHit {
-			res.FuncsHit[k] = true
-		}
-		for _, inc := range r.inconclusive {
-			res.Inconclusive = append(res.Inconclusive, inc)
-		}
-		for _, v := range r.violations {
-			key := v.Kind + "|" + v.ID + "|" + strings.Join(v.KnownIDs, ",")
-			seenViol[key]++
-			if seenViol[key] <= 3 {
-				v.Harness = l.Func
-				res.Violations = append(res.Violations, v)
+		defer func() {
+			mu.Lock()
+			res.Queries += m.solver.Queries
+			res.SolverTime += m.solver.Time
+			res.Sat += m.solver.Sat
+			res.Unsat += m.solver.Unsat
+			res.Unknown += m.solver.Unknown
+			if m.solver.Errors > 0 {
+				res.Inconclusive = append(res.Inconclusive, fmt.Sprintf("solver reported %d error lines (last: %s)", m.solver.Errors, m.solver.lastErr))
 			}
-		}
-		if len(res.Samples) < 3 && r.ended == "" {
-			smp := map[string]interface{}{"decisions": len(r.trail), "obligations": r.obligations, "path_conditions": len(r.pc)}
-			var labels []string
-			for _, in := range r.inputs {
-				labels = append(labels, in.Label)
+			workers--
+			cond.Broadcast()
+			mu.Unlock()
+			m.solver.Close()
+		}()
+		for {
+			mu.Lock()
+			for len(queue) == 0 && active > 0 && !stop {
+				cond.Wait()
 			}
-			sort.Strings(labels)
-			if len(labels) > 12 {
-				labels = labels[:12]
+			if stop || len(queue) == 0 {
+				mu.Unlock()
+				return
 			}
-			smp["symbolic_inputs"] = labels
-			if len(r.pc) > 0 {
-				s := r.pc[len(r.pc)-1].String()
-				if len(s) > 160 {
-					s = s[:160] + "…"
+			if res.Paths+active >= maxPaths {
+				res.Inconclusive = append(res.Inconclusive, fmt.Sprintf("path limit %d reached with %d prefixes pending", maxPaths, len(queue)))
+				stop = true
+				cond.Broadcast()
+				mu.Unlock()
+				return
+			}
+			if time.Now().After(deadline) {
+				res.Inconclusive = append(res.Inconclusive, fmt.Sprintf("time budget reached with %d prefixes pending after %d paths", len(queue), res.Paths))
+				stop = true
+				cond.Broadcast()
+				mu.Unlock()
+				return
+			}
+			prefix := queue[len(queue)-1]
+			queue = queue[:len(queue)-1]
+			active++
+			// grow the pool while there is a backlog and a free CPU
+			if len(queue) > 2 && workers < 16 {
+				select {
+				case cpuTokens <- struct{}{}:
+					workers++
+					wg.Add(1)
+					go worker(true)
+				default:
 				}
-				smp["last_path_condition"] = s
 			}
-			res.Samples = append(res.Samples, smp)
+			mu.Unlock()
+
+			r := m.newRun(prefix)
+			r.exec(fn)
+
+			mu.Lock()
+			active--
+			res.Paths++
+			res.PathsEnded[r.ended]++
+			res.Obligations += r.obligations
+			res.Discharged += r.discharged
+			if len(r.trail) > res.MaxTrail {
+				res.MaxTrail = len(r.trail)
+			}
+			for k := range r.reached {
+				res.Reached[k]++
+			}
+			for k, n := range r.assertIDs {
+				res.AssertIDs[k] += n
+			}
+			for k := range r.funcsHit {
+				res.FuncsHit[k] = true
+			}
+			res.Inconclusive = append(res.Inconclusive, r.inconclusive...)
+			for _, v := range r.violations {
+				key := v.Kind + "|" + v.ID + "|" + strings.Join(v.KnownIDs, ",")
+				seenViol[key]++
+				if seenViol[key] <= 3 {
+					v.Harness = l.Func
+					res.Violations = append(res.Violations, v)
+				}
+			}
+			if len(res.Samples) < 3 && r.ended == "" {
+				res.Samples = append(res.Samples, r.sample())
+			}
+			queue = append(queue, r.newAlts...)
+			cond.Broadcast()
+			mu.Unlock()
 		}
-		work = append(work, r.newAlts...)
 	}
-	res.Queries = m.solver.Queries
-	res.SolverTime = m.solver.Time
-	res.Sat, res.Unsat, res.Unknown = m.solver.Sat, m.solver.Unsat, m.solver.Unknown
-	if m.solver.Errors > 0 {
-		res.Inconclusive = append(res.Inconclusive, fmt.Sprintf("solver reported %d error lines (last: %s)", m.solver.Errors, m.solver.lastErr))
-	}
+	cpuTokens <- struct{}{}
+	workers = 1
+	wg.Add(1)
+	go worker(true)
+	wg.Wait()
+	sort.Slice(res.Violations, func(i, j int) bool {
+		a, b := res.Violations[i], res.Violations[j]
+		if a.ID != b.ID {
+			return a.ID < b.ID
+		}
+		return fmt.Sprint(a.Trail) < fmt.Sprint(b.Trail)
+	})
 	res.Wall = time.Since(t0)
 	return res
+}
+
+func (r *Run) sample() map[string]interface{} {
+	smp := map[string]interface{}{"decisions": len(r.trail), "obligations": r.obligations, "path_conditions": len(r.pc)}
+	var labels []string
+	for _, in := range r.inputs {
+		labels = append(labels, in.Label)
+	}
+	sort.Strings(labels)
+	if len(labels) > 12 {
+		labels = labels[:12]
+	}
+	smp["symbolic_inputs"] = labels
+	if len(r.pc) > 0 {
+		s := r.pc[len(r.pc)-1].String()
+		if len(s) > 160 {
+			s = s[:160] + "…"
+		}
+		smp["last_path_condition"] = s
+	}
+	return smp
 }
